@@ -47,6 +47,7 @@ type frame struct {
 	curIter *State
 	lockSnap map[string]*State
 	spawned []spawnRec
+	decAt   map[int]string // loop ordinal → value of the variant at the head of the current iteration
 }
 
 type retPoint struct {
@@ -489,6 +490,12 @@ func (fr *frame) execBlock(b *ssa.BasicBlock, st0 *State, reach0 string) {
 			}
 		}
 	}
+	if isHeader && !ex.discover && fr.c != nil && fr.c.Decreases[fr.loops.ordinal[b]] != nil {
+		if fr.decAt == nil {
+			fr.decAt = map[int]string{}
+		}
+		fr.decAt[fr.loops.ordinal[b]] = ex.name("variant", fr.evalClauseVal(fr.c.Decreases[fr.loops.ordinal[b]], b, st), sInt)
+	}
 	if isHeader && !ex.discover {
 		if fr.iterSt == nil {
 			fr.iterSt = map[int]*State{}
@@ -595,6 +602,11 @@ func (fr *frame) goTo(b *ssa.BasicBlock, succ *ssa.BasicBlock, cond string, st *
 		for _, inv := range fr.loopInvariants(ord) {
 			g := fr.evalClause(inv, succ, st, nil)
 			ex.oblige(fr.label(fmt.Sprintf("loop%d.%s.preserved", ord, inv.Label)), "invariant", inv.Props, imp(cond, g), inv.Pos, inv.Text)
+		}
+		if fr.c != nil && !ex.discover && fr.c.Decreases[ord] != nil && fr.decAt[ord] != "" {
+			cl := fr.c.Decreases[ord]
+			nv := fr.evalClauseVal(cl, succ, st)
+			ex.oblige(fr.label(fmt.Sprintf("loop%d.%s.decreases", ord, cl.Label)), "invariant", cl.Props, imp(cond, and(app("<=", "0", fr.decAt[ord]), app("<", nv, fr.decAt[ord]))), cl.Pos, "variant (non-negative, strictly decreasing): "+cl.Text)
 		}
 		if fr.c != nil && !ex.discover {
 			for _, cl := range fr.c.Steps[ord] {
